@@ -692,7 +692,16 @@ func genListener(repo string) *leanFile {
 		// cancel-before-wait on the error path: either cancel() is deferred AFTER eg.Wait
 		// (so it runs first), or cancel() is called explicitly before each return.
 		ci, wi := indexOf(defers, "cancel"), indexOf(defers, "eg.Wait")
-		l.Bool("cancelBeforeWait", ci >= 0 && wi >= 0 && ci > wi || listenCancelsInline(fd), "Listen: on return, cancel() runs before eg.Wait()")
+		// …or one deferred func literal that calls cancel() and then eg.Wait()
+		inOne := false
+		for _, d := range defers {
+			cs := strings.Split(d, ";")
+			c, w := indexOf(cs, "cancel"), indexOf(cs, "eg.Wait")
+			if c >= 0 && w >= 0 && c < w {
+				inOne = true
+			}
+		}
+		l.Bool("cancelBeforeWait", ci >= 0 && wi >= 0 && ci > wi || inOne || listenCancelsInline(fd), "Listen: on return, cancel() runs before eg.Wait()")
 	}
 	return l
 }
